@@ -95,6 +95,34 @@ theorem C24_index_in_range {σ : Type} (G : Gen σ) (hG : ∀ g n, 0 < n → (G.
           injection h with h; omega
       omega
 
+/-- **`getSortedProducersWithRandom`** (private generator): the producer order with the random
+    candidate on the last normal seat, and the bookkeeping of the last draw, are the same for every
+    schedule of the environment and every state of the shared generator — a function of the sorted
+    producers, the previous bookkeeping and the chain-derived seed only. -/
+theorem C24_with_random_det {σ : Type} (G : Gen σ) (seed? : Option Int) (owners : List (List Nat))
+    (unclaimed normal cands : Int) (period height : Nat) (last : LastRandom)
+    (sched sched' : List EnvOp) (g0 g0' : σ) :
+    withRandom G .local seed? owners unclaimed normal cands period height last sched g0 =
+    withRandom G .local seed? owners unclaimed normal cands period height last sched' g0' := by
+  unfold withRandom
+  rw [C24_candidate_index_det G seed? owners.length unclaimed normal cands sched sched' g0 g0']
+
+/-- moving a producer to the seat neither loses nor duplicates anybody -/
+theorem C24_moveTo_length {α : Type} (l : List α) (pos i : Nat) (h : pos ≤ i) :
+    (moveTo l pos i).length = l.length := by
+  unfold moveTo
+  cases hi : l[i]? with
+  | none => rfl
+  | some x =>
+    have hlt : i < l.length := by
+      rcases Nat.lt_or_ge i l.length with h1 | h1
+      · exact h1
+      · rw [List.getElem?_eq_none h1] at hi; cases hi
+    simp only [List.length_append, List.length_take, List.length_drop, List.length_cons, List.length_nil]
+    omega
+
+example : moveTo [10, 11, 12, 13, 14] 1 3 = [10, 13, 11, 12, 14] := by decide
+
 /-- **The DPoS v2 selection** (`getRandomDposV2Producers`, private generator): the selected order
     is the same for every schedule of the environment and every state of the shared generator. -/
 theorem C24_v2_local_det {σ α : Type} (G : Gen σ) (s : Int) (keys : List α) (count : Nat)
@@ -264,6 +292,23 @@ theorem C24_gen_less :
       ["func(i, j int) bool { if votedProducers[i].votes == votedProducers[j].votes { return bytes.Compare(votedProducers[i].info.NodePublicKey, votedProducers[j].NodePublicKey()) < 0 } return votedProducers[i].Votes() > votedProducers[j].Votes() }"] ∧
     Gen.C24.getSortedProducersDposV2Less =
       ["func(i, j int) bool { if votedProducers[i].GetTotalDPoSV2VoteRights() == votedProducers[j].GetTotalDPoSV2VoteRights() { return bytes.Compare(votedProducers[i].info.NodePublicKey, votedProducers[j].NodePublicKey()) < 0 } return votedProducers[i].GetTotalDPoSV2VoteRights() > votedProducers[j].GetTotalDPoSV2VoteRights() }"] := by
+  decide +kernel
+
+/-- **Explicit boundary facts** (regenerated): *every* function of the module that mentions a
+    seedable-generator package is either in an environment package (storage — the treap draws its
+    node priorities, `database/internal/treap`; network — `p2p/server`, `p2p/addrmgr`, `p2p/peer`,
+    `dpos/p2p`; mining — `pow`; command line tools, benchmarks) or is one of the two selection
+    sites of `dpos/state`, which use a private generator seeded from chain data
+    (`C24_gen_sites`).  Together with `C24_no_global_rand` (nothing of the environment's generator
+    use is reachable from the consensus packages) this is the sense in which none of the anchored
+    `math/rand` users feeds consensus state: the consensus packages never read the generator those
+    functions draw from, and never call them. -/
+theorem C24_gen_all_rand_sites :
+    Gen.C24.allRandSites.all (fun s => s.2.2.1 ||
+      (s.1 == "dpos/state" && (s.2.1 == "Arbiters.getCandidateIndexAtRandom" || s.2.1 == "Arbiters.getRandomDposV2Producers"))) = true ∧
+    (Gen.C24.allRandSites.map (·.1)).contains "database/internal/treap" = true ∧
+    (Gen.C24.allRandSites.map (·.1)).contains "p2p/server" = true ∧
+    (Gen.C24.allRandSites.map (·.1)).contains "p2p/addrmgr" = true := by
   decide +kernel
 
 /-- the environment boundary is the reviewed one -/
